@@ -19,6 +19,10 @@ from .values import NTuple, EnumVal, StrSeq, Tok, PyList, SliceVal, Ext, Opaque,
 pow2 = z3.Function("pow2", z3.IntSort(), z3.IntSort())
 ilog2 = z3.Function("ilog2", z3.IntSort(), z3.IntSort())
 
+# Bit(v, i): bit i of the non-negative int v.  Its meaning comes from the decomposition facts
+# v == sum(2**i * Bit(v, i)) that smt.py instantiates for every ground v (0 <= v < 2**BIT_WIDTH).
+Bit = z3.Function("Bit", z3.IntSort(), z3.IntSort(), z3.BoolSort())
+
 PI = fractions.Fraction(math.pi)
 
 
@@ -191,7 +195,7 @@ def bitop(interp, op, za, zb):
             return simp(za % 2)
     interp.side_obligation("bitop_range_lhs", z3.And(za >= 0, za < lim))
     interp.side_obligation("bitop_range_rhs", z3.And(zb >= 0, zb < lim))
-    ba, bb = bits_of(za, w), bits_of(zb, w)
+    ba, bb = [Bit(za, i) for i in range(w)], [Bit(zb, i) for i in range(w)]
     total = z3.IntVal(0)
     for i in range(w):
         bit = z3.Or(ba[i], bb[i]) if op == "|" else z3.And(ba[i], bb[i])
